@@ -85,7 +85,13 @@ type signCoin struct {
 func propC03(t *rapid.T) {
 	useProfile(profSmall)
 	nW := rapid.IntRange(1, 2).Draw(t, "wallets")
+	// a third of the cases restore the wallets with internal (change-branch) addresses, which then
+	// receive coins like any other address
+	if rapid.IntRange(0, 2).Draw(t, "withInternal") == 0 {
+		worldInternalHint = uint32(rapid.IntRange(1, 2).Draw(t, "internalIndex"))
+	}
 	w := newWorld(t, nW, 20, nil)
+	worldInternalHint = 0
 	defer w.close()
 	w.c09mode = true
 	w.allowNullData = false
@@ -114,6 +120,11 @@ func propC03(t *rapid.T) {
 		for _, ia := range m.issued {
 			if ia.Hash == h {
 				return m.keys.Addr(ia.Index)
+			}
+		}
+		for _, ia := range m.internal {
+			if ia.Hash == h {
+				return m.keys.AddrInternal(ia.Index)
 			}
 		}
 		return nil
